@@ -166,10 +166,9 @@ def run_case(case: dict) -> list:
     if not allviews:
         seq.append({"op": "read_views", "arg": NOARG})
     # bookkeeping used ONLY to label failures for known-finding matching (never to decide anything):
-    # the rectangle lists / rectangle areas seen so far, and whether the netlist memo has been dropped since it was last read
-    past_lists = [_cores(pre)]
+    # the rectangle areas seen so far (and, at each view read, whether the netlist memo was empty / holds the modules' own objects)
     past_areas = [_areas(pre)]
-    dropped = False
+    module_change = False     # a Module-level change of a rectangle list since the netlist memo was last built
     for k, s in enumerate(seq):
         op, a = s["op"], s["arg"]
         rec = {"pre": pre, "op": op, "arg": a, "raised": 0, "ret": [], "postok": 1, "post": pre, "hasviews": 0,
@@ -194,13 +193,16 @@ def run_case(case: dict) -> list:
         rec["post2"] = post
         if text is not None:
             rec["reload"] = reload_state(text, emb)
-        if op in ("create_squares", "assign_rectangles") and not rec["raised"]:
-            dropped = True
-        rec["x_dropped"] = dropped
+        rec["x_dropped"] = False
+        if op in ("add_rectangle", "clear_rectangles", "create_square") and not rec["raised"]:
+            module_change = True
         if (allviews or op == "read_views") and not rec["raised"]:
             rec["hasviews"] = 1
+            rec["x_dropped"] = getattr(nl, "_rectangles", 0) is None      # labelling only: was the netlist memo empty?
             try:
                 rec["views"] = read_views(nl, emb)
+                held = sorted(id(r) for m in nl.modules for r in m.rectangles)
+                rec["x_same_objects"] = sorted(id(r) for r in nl.rectangles) == held
             except OffLattice:
                 rec["hasviews"] = 0
             except Exception as e:
@@ -214,16 +216,19 @@ def run_case(case: dict) -> list:
                 steps.append(rec)
                 break
             if rec["hasviews"]:
-                dropped = False
                 vl = sorted(tuple(r[:5]) for r in rec["views"]["rectangles"])
                 vfull = sorted(map(tuple, rec["views"]["rectangles"]))
-                rec["x_rect_view"] = ("current" if vfull == _full(post) else "state_after_reading" if vfull == _full(post2)
-                                      else "earlier_state" if vl in past_lists and vl != _cores(post) else "other")
-                rec["x_area_view"] = ["current" if a == b else "earlier_state" if any(a == old[i] for old in past_areas if i < len(old)) else "other"
+                rec["x_rect_view"] = ("current" if vfull == _full(post) else
+                                      "stale_list_after_module_level_change" if not rec.get("x_same_objects", True) and module_change else
+                                      "state_after_reading" if rec.get("x_same_objects", True) and vfull == _full(post2) else "other")
+                if rec["x_dropped"]:
+                    module_change = False        # the memo has just been rebuilt from the modules
+                rec["x_area_view"] = ["current" if a == b else
+                                      "old_area_of_emptied_module" if not post["mods"][i]["rects"] and any(a == old[i] for old in past_areas if i < len(old))
+                                      else "other"
                                       for i, (a, b) in enumerate(zip(rec["views"]["area_rectangles"], _areas(post)))]
         steps.append(rec)
         pre = rec["post2"]
-        past_lists.append(_cores(rec["post"])); past_lists.append(_cores(pre))
         past_areas.append(_areas(rec["post"]))
     return steps
 
@@ -286,7 +291,7 @@ def random_steps(rng: random.Random, doc: dict, n: int) -> list:
 
 
 # ------------------------------------------------------------------------------------------------ deciding
-_PRIVATE = ("k", "exc", "view_exc", "x_dropped", "x_rect_view", "x_area_view")
+_PRIVATE = ("k", "exc", "view_exc", "x_dropped", "x_rect_view", "x_area_view", "x_same_objects")
 
 
 def step_features(rec: dict, fail: str) -> dict:
@@ -300,7 +305,7 @@ def step_features(rec: dict, fail: str) -> dict:
         f["answered_with"] = rec.get("x_rect_view", "other")
     if fail == "v_area_rectangles":
         kinds = set(rec.get("x_area_view", ["other"])) - {"current"}
-        f["answered_with"] = "earlier_state" if kinds == {"earlier_state"} else "other"
+        f["answered_with"] = "old_area_of_emptied_module" if kinds == {"old_area_of_emptied_module"} else "other"
     if fail == "view_pure":
         f["memo_dropped_before"] = bool(rec.get("x_dropped", False))
     if fail == "view_pure":
